@@ -25,6 +25,7 @@ Theorem citems_pgain Pc Ph l off ts ds : citems Pc Ph l off ts ds -> pgain ts 0.
 Proof.
   induction 1 as [off|off s r ds Hs Hr IH
                  |off kw words cond o body c r ds1 ds2 Hkw Hwords Hcond HPc Ho Hc Hb IHb Hr IHr
+                 |off kw colon r ds Hkw Hcolon Hr IH
                  |off o body c r ds1 ds2 Ho Hc Hb IHb Hr IHr
                  |off pre o flat c post semi r ds Hpre Ho Hflat Hc Hpost Hsemi Hr IH
                  |off a tail o body c post semi r ds1 ds2 Hjs Hane Hop Hlast Htail Ho Hc Hpost Hsemi Hb IHb Hr IHr
@@ -38,11 +39,12 @@ Proof.
     apply pgain_app0; [destruct Hcond as [->|[Hg _]]; [apply pgain_nil | apply pgain_groups; exact Hg]|].
     apply pgain_tok; [apply lbrace_noparen; exact Ho|].
     apply pgain_app0; [exact IHb|]. apply pgain_tok; [apply rbrace_noparen; exact Hc | exact IHr].
+  - apply pgain_tok; [apply keyword_noparen; exact Hkw|]. apply pgain_tok; [eapply operator_noparen; exact Hcolon | exact IH].
   - apply pgain_tok; [apply lbrace_noparen; exact Ho|].
     apply pgain_app0; [exact IHb|]. apply pgain_tok; [apply rbrace_noparen; exact Hc | exact IHr].
   - apply pgain_app0; [apply pgain_plains; exact Hpre|].
     apply pgain_tok; [apply lbrace_noparen; exact Ho|].
-    apply pgain_app0; [apply pgain_plains; exact Hflat|].
+    apply pgain_app0; [apply pgain_inner; exact Hflat|].
     apply pgain_tok; [apply rbrace_noparen; exact Hc|].
     apply pgain_app0; [apply pgain_inner; exact Hpost|].
     apply pgain_tok; [apply semi_noparen; exact Hsemi | exact IH].
@@ -87,6 +89,10 @@ Record oksel (Pc : list token -> Prop) (l : language) (c : cand_fn) (f : follow_
              is_lbrace o = true -> no_acc c f (kw :: words ++ cond ++ [o]) B;
     o_init : forall pre o flat cl B, forallb plain pre = true -> is_lbrace o = true -> forallb plain flat = true ->
              is_rbrace cl = true -> no_acc c f (pre ++ o :: flat ++ [cl]) B;
+    o_initstmt : forall pre o flat cl post semi B, forallb plain pre = true -> is_lbrace o = true -> inner flat ->
+             is_rbrace cl = true -> inner post -> is_symbol semi semicolon = true ->
+             no_acc c f (pre ++ o :: flat ++ cl :: post ++ [semi]) B;
+    o_label : forall kw colon B, is_keyword kw = true -> is_operator colon s_colon = true -> no_acc c f [kw; colon] B;
     o_cb : forall a tail o body cl post semi R, is_jsts l = true -> a <> [] -> open_prefix a (length post) ->
            (is_lparen (last a o) = true \/ is_symbol (last a o) s_comma = true) ->
            cb_tail tail -> is_lbrace o = true -> is_rbrace cl = true ->
@@ -103,6 +109,8 @@ Proof.
   - apply (symbol_no_acc l c f G).
   - intros kw words cond o B Hkw Hwords Hcond _ Ho. apply (ctrl_front_no_acc l c f G); assumption.
   - apply (init_front_no_acc l c f G).
+  - apply (init_stmt_no_acc l c f G).
+  - apply (label_no_acc l c f G).
   - intros a tail o body cl post semi R _. apply (cb_front_no_acc l c f G Hfs).
   - apply (prefix_no_acc l c f G).
 Qed.
@@ -160,22 +168,28 @@ Section OneSelection.
   Qed.
 
   Lemma seg_init off pre o flat cl post semi r B hr :
-    forallb plain pre = true -> is_lbrace o = true -> forallb plain flat = true -> is_rbrace cl = true ->
+    forallb plain pre = true -> is_lbrace o = true -> inner flat -> is_rbrace cl = true ->
     inner post -> is_symbol semi semicolon = true ->
     Seg c f (off + length pre + 1 + length flat + 1 + length post + 1) r B hr ->
     Seg c f off (pre ++ o :: flat ++ cl :: post ++ semi :: r) B hr.
   Proof.
     intros Hpre Ho Hflat Hcl Hpost Hsemi Hr.
-    replace (pre ++ o :: flat ++ cl :: post ++ semi :: r) with ((pre ++ o :: flat ++ [cl]) ++ (post ++ [semi]) ++ r)
+    replace (pre ++ o :: flat ++ cl :: post ++ semi :: r) with ((pre ++ o :: flat ++ cl :: post ++ [semi]) ++ r)
       by (norm_app; reflexivity).
-    change hr with ([] ++ [] ++ hr).
+    change hr with ([] ++ hr).
     apply Seg_app.
-    { apply (Seg_none c f Hc Hf). apply (o_init _ _ _ _ G); assumption. }
-    apply Seg_app.
-    { apply seg_stmt. exists post, semi. auto. }
-    replace (off + length (pre ++ o :: flat ++ [cl]) + length (post ++ [semi]))
+    { apply (Seg_none c f Hc Hf). apply (o_initstmt _ _ _ _ G); assumption. }
+    replace (off + length (pre ++ o :: flat ++ cl :: post ++ [semi]))
       with (off + length pre + 1 + length flat + 1 + length post + 1) by (norm_len; lia).
     exact Hr.
+  Qed.
+
+  Lemma seg_label off kw colon r B hr :
+    is_keyword kw = true -> is_operator colon s_colon = true ->
+    Seg c f (off + 2) r B hr -> Seg c f off (kw :: colon :: r) B hr.
+  Proof.
+    intros Hkw Hco Hr. change (kw :: colon :: r) with ([kw; colon] ++ r). change hr with ([] ++ hr).
+    apply Seg_app; [|exact Hr]. apply (Seg_none c f Hc Hf). apply (o_label _ _ _ _ G); assumption.
   Qed.
 
   Lemma symbols_no_acc A B : Forall (fun t => exists s, is_symbol t s = true) A -> no_acc c f A B.
@@ -333,6 +347,7 @@ Section TwoSelections.
   Proof.
     induction 1 as [off|off s r ds Hs Hr IH
                    |off kw words cond o body c r ds1 ds2 Hkw Hwords Hcond HPc Ho Hc Hb IHb Hr IHr
+                   |off kw colon r ds Hkw Hcolon Hr IH
                    |off o body c r ds1 ds2 Ho Hc Hb IHb Hr IHr
                    |off pre o flat c post semi r ds Hpre Ho Hflat Hc Hpost Hsemi Hr IH
                    |off a tail o body c post semi r ds1 ds2 Hjs Hane Hop Hlast Htail Ho Hc Hpost Hsemi Hb IHb Hr IHr
@@ -359,6 +374,12 @@ Section TwoSelections.
             by (rewrite app_nil_r; norm_app; reflexivity).
           eapply (newhdrs_ctx off _ _ r _ xr); [|exact HXr]; norm_len; lia.
       + destruct HLb as [HLb| ->]; [left; exact HLb|]. destruct HLr as [HLr| ->]; [left; exact HLr | right; reflexivity].
+    - destruct (IH B) as (h1 & h2 & xs & S1 & S2 & HP & HX & HL). exists h1, h2, xs.
+      split; [|split; [|split; [exact HP|split; [|exact HL]]]].
+      + apply (seg_label Pc l c1 f1 G1); assumption.
+      + apply (seg_label Pc l c2 f2 G2); assumption.
+      + replace (kw :: colon :: r) with ([kw; colon] ++ r ++ []) by (rewrite app_nil_r; reflexivity).
+        eapply (newhdrs_ctx off _ _ r _ xs); [|exact HX]; norm_len; lia.
     - destruct (IHb (([c] ++ r) ++ B)) as (b1 & b2 & xb & Sb1 & Sb2 & HPb & HXb & HLb).
       destruct (IHr B) as (r1 & r2 & xr & Sr1 & Sr2 & HPr & HXr & HLr).
       exists (b1 ++ r1), (b2 ++ r2), (xb ++ xr). split; [|split; [|split; [|split]]].
@@ -662,6 +683,7 @@ Theorem citems_no_drop Pc Ph l off ts ds : citems Pc Ph l off ts ds ->
 Proof.
   induction 1 as [off|off s r ds Hs Hr IH
                  |off kw words cond o body c r ds1 ds2 Hkw Hwords Hcond Hnt Ho Hc Hb IHb Hr IHr
+                 |off kw colon r ds Hkw Hcolon Hr IH
                  |off o body c r ds1 ds2 Ho Hc Hb IHb Hr IHr
                  |off pre o flat c post semi r ds Hpre Ho Hflat Hc Hpost Hsemi Hr IH
                  |off a tail o body c post semi r ds1 ds2 Hjs Hane Hop Hlast Htail Ho Hc Hpost Hsemi Hb IHb Hr IHr
@@ -683,6 +705,10 @@ Proof.
       apply IHr; [norm_len; lia|].
       replace (P ++ kw :: words ++ cond ++ o :: body ++ [c]) with ((P ++ kw :: words ++ cond ++ o :: body) ++ [c]) by (norm_app; reflexivity).
       apply last_ok_snoc. eapply symbol_no_drop; exact Hc.
+  - replace (P ++ (kw :: colon :: r) ++ B) with ((P ++ [kw; colon]) ++ r ++ B) by (norm_app; reflexivity).
+    apply IH; [norm_len; lia|].
+    replace (P ++ [kw; colon]) with ((P ++ [kw]) ++ [colon]) by (norm_app; reflexivity).
+    apply last_ok_snoc. unfold drop_tok. rewrite !kw_is_not_keyword by (eapply operator_not_keyword; exact Hcolon). reflexivity.
   - apply Forall_app. split.
     + replace (P ++ (o :: body ++ c :: r) ++ B) with ((P ++ [o]) ++ body ++ (c :: r ++ B)) by (norm_app; reflexivity).
       apply IHb; [norm_len; lia|]. apply last_ok_snoc. eapply symbol_no_drop; exact Ho.
